@@ -35,6 +35,9 @@ type faultFS struct {
 	OnBlock    func()
 	Release    chan struct{}
 	blockOnce  sync.Once
+	// HoldOpens: every Open waits until the channel is closed and then fails (all workers fail at once while
+	// the request pipeline is full)
+	HoldOpens chan struct{}
 }
 
 func (f *faultFS) Walk(ctx context.Context, target string, fn gofs.WalkDirFunc) error {
@@ -61,6 +64,13 @@ func (f *faultFS) Open(p string) (io.ReadCloser, error) {
 	f.Opens = n
 	f.mu.Unlock()
 	if f.OpenErrAt != 0 && n == f.OpenErrAt {
+		if f.OnFault != nil {
+			f.OnFault("open", n)
+		}
+		return nil, errInjected
+	}
+	if f.HoldOpens != nil {
+		<-f.HoldOpens
 		if f.OnFault != nil {
 			f.OnFault("open", n)
 		}
